@@ -87,14 +87,16 @@ class Reporter:
             self.assumptions.append(text)
 
     # ------------------------------------------------------------------ finishing
-    def finish(self):
+    def finish(self, partial=False):
+        """partial: the rules stopped with an analysis error; floors are not applied (rules that did not run have no instances),
+        but violations that were already established are still reported"""
         known = load_known()
         out_lines = []
         unexplained = []
         nknown = 0
         for rid, r in sorted(self.rules.items()):
             n = len(r["instances"])
-            if n < r["floor"]:
+            if n < r["floor"] and not partial:
                 f = Finding(rid, "floor", "required mechanism not found: rule matched %d instance(s), "
                             "at least %d are required on any tree that implements the property" % (n, r["floor"]))
                 r["violations"].append(f)
